@@ -1,5 +1,6 @@
 import HmfVerif.Real.Tactics
 import HmfVerif.Gen.ExprFlow
+import HmfVerif.Gen.Desc
 import HmfVerif.Spec.Wiring
 import HmfVerif.Gen.Guards
 import HmfVerif.Spec.Guards
@@ -83,5 +84,44 @@ theorem sigma8_normalisation_wiring :
 /-- the filter used for variances at the object's redshift is built on the power at that redshift (`power`, which scales with growth²),
     not on the z = 0 spectrum -/
 theorem normalised_filter_wiring : Gen.Flow.wiring.lookup "MassFunction.normalised_filter" = some Spec.Wiring.normalisedFilter := by decide
+
+/-! ## which inputs the σ₈ integral reads in each of its two branches (regenerated read program of `Transfer._unn_sig8`) -/
+
+/-- direct reads (parameters and quantities) of a read program, in order -/
+def tmReads : Tm → List Name
+  | .p n => [n]
+  | .q n => [n]
+  | .sup _ n => [n]
+  | .pair _ a b => tmReads a ++ tmReads b
+  | .ite _ c t e => tmReads c ++ tmReads t ++ tmReads e
+  | .raiseIf _ c k => tmReads c ++ tmReads k
+  | .const _ => []
+
+/-- equality of two read lists as sets (the order of reads inside a branch is not part of the statement) -/
+def sameSet (a b : List Name) : Bool := a.all (b.contains ·) && b.all (a.contains ·)
+
+/-- split a read program at its (outermost, last) two-way branch: reads made before/for the guard, reads of either branch.
+    `if g: A else: B` and `c = g; if c: A else: B` (guard computed into a local first) give the same split -/
+def splitBranch : Tm → Option (List Name × List Name × List Name)
+  | .ite _ c t e => some (tmReads c, tmReads t, tmReads e)
+  | .pair _ a b =>
+      match splitBranch b with
+      | some (c, t, e) => some (tmReads a ++ c, t, e)
+      | none => (splitBranch a).map fun (c, t, e) => (c, t ++ tmReads b, e ++ tmReads b)
+  | _ => none
+
+/-- the three parts of the branch in `_unn_sig8`: guard, narrow-range branch, wide-range branch -/
+def sig8Parts : Option (List Name × List Name × List Name) :=
+  (Gen.descTransfer.bodyOf 1 Gen.N._unn_sig8).bind splitBranch
+
+/-- C03 ("its value at a given wavenumber does not depend on the requested wavenumber range or resolution beyond quadrature accuracy"):
+    the branch is decided by `lnk_min` and `lnk_max` alone; on a narrow requested range the un-normalised σ(8) is computed from the
+    transfer component, the spectral index and the step `dlnk` **only** — not from the requested grid `k` nor from the spectrum tabulated
+    on it — and on a wide range from exactly that grid and spectrum -/
+theorem sigma8_integral_inputs :
+    (sig8Parts.map fun (c, t, e) =>
+      sameSet c [Gen.N.lnk_min, Gen.N.lnk_max] && sameSet t [Gen.N.dlnk, Gen.N.transfer, Gen.N.n] &&
+      sameSet e [Gen.N.k, Gen.N._unnormalised_power]) = some true := by
+  decide +kernel
 
 end Hmf.C03
